@@ -20,6 +20,11 @@ the source and written as data:
         s.I = vaddq_f32(s.I, vreinterpretq_f32_u32(vandq_u32(lut, pK)));
         vst1q_f32_x4(rowptr, s);                              s.0..s.3 at offsets 0, 4, 8, 12
 
+The safe wrappers `Sse2::score_rows_into` and `Neon::score_f32_rows_into` must contain, in
+order, the wrap guard, the `L < M || rows.is_empty()` early return, the row-range assertion and
+the resize before the kernel call (the guards modelled by SimdModel.simd_guard; for NEON this is
+their only tie to the source).
+
 For each accumulator the generated file gives the path of halves (false = low /
 `.0`, true = high / `.1`) from the loaded register down to the register compared
 for that accumulator, and the store offset.  That these put the score of every
@@ -210,6 +215,30 @@ def parse_neon(src):
     return dict(paths=paths, stores=[0, 4, 8, 12])
 
 
+GUARDS = [
+    (r"if\s+seq\s*\.\s*wrap\s*\(\s*\)\s*<\s*pssm\s*\.\s*rows\s*\(\s*\)\s*-\s*1\s*\{\s*panic!",
+     "guard `seq.wrap() < pssm.rows() - 1 => panic`"),
+    (r"if\s+seq\s*\.\s*len\s*\(\s*\)\s*<\s*pssm\s*\.\s*rows\s*\(\s*\)\s*\|\|\s*rows\s*\.\s*is_empty\s*\(\s*\)\s*\{\s*scores\s*\.\s*resize\s*\(\s*0\s*,\s*0\s*\)\s*;\s*return\s*;",
+     "early return `seq.len() < pssm.rows() || rows.is_empty() => resize(0, 0)`"),
+    (r"if\s+rows\s*\.\s*end\s*\+\s*pssm\s*\.\s*rows\s*\(\s*\)\s*-\s*1\s*>\s*seq\s*\.\s*matrix\s*\(\s*\)\s*\.\s*rows\s*\(\s*\)\s*\{\s*panic!",
+     "guard `rows.end + pssm.rows() - 1 > seq.matrix().rows() => panic`"),
+    (r"scores\s*\.\s*resize\s*\(\s*rows\s*\.\s*len\s*\(\s*\)\s*,\s*\(\s*seq\s*\.\s*len\s*\(\s*\)\s*\+\s*1\s*\)\s*\.\s*saturating_sub\s*\(\s*pssm\s*\.\s*rows\s*\(\s*\)\s*\)\s*\)\s*;",
+     "resize(rows.len(), (seq.len() + 1).saturating_sub(pssm.rows()))"),
+]
+
+
+def check_wrapper(src, fn, kernel_call):
+    """The safe wrapper must establish, in this order, the guards modelled by SimdModel.simd_guard
+    before it calls the kernel (for NEON this is the only tie of the guards to the source)."""
+    body = _function_body(src, fn)
+    pos = 0
+    for rx, what in GUARDS + [(kernel_call, "call of the kernel")]:
+        m = re.compile(rx).search(body, pos)
+        if not m:
+            raise ParseError("%s: %s not found (in this order)" % (fn, what))
+        pos = m.end()
+
+
 def _consts(name, k):
     paths = "; ".join("[" + "; ".join("true" if h else "false" for h in p) + "]" for p in k["paths"])
     return ["Definition %s : lane4_consts := mkLane4" % name,
@@ -238,8 +267,12 @@ def render(sse2, neon):
 def run(write=True):
     notes, errors = [], []
     try:
-        sse2 = parse_sse2(_strip_comments(open(SSE2).read()))
-        neon = parse_neon(_strip_comments(open(NEON).read()))
+        sse2_src = _strip_comments(open(SSE2).read())
+        neon_src = _strip_comments(open(NEON).read())
+        sse2 = parse_sse2(sse2_src)
+        neon = parse_neon(neon_src)
+        check_wrapper(sse2_src, "score_rows_into", r"score_sse2\s*\(\s*pssm\s*,\s*seq\s*,\s*rows\s*,\s*scores\s*\)")
+        check_wrapper(neon_src, "score_f32_rows_into", r"score_f32_neon\s*\(\s*pssm\s*,\s*seq\s*,\s*rows\s*,\s*scores\s*\)")
         text = render(sse2, neon)
     except (ParseError, OSError, ValueError) as e:
         errors.append("score_lane4: cannot parse the source: %s" % e)
@@ -256,7 +289,8 @@ def run(write=True):
             with open(OUT, "w") as f:
                 f.write(text)
             changed = True
-    notes.append("score_lane4: sse2 paths %s stores %s; neon paths %s%s" % (
+    notes.append("score_lane4: sse2 paths %s stores %s; neon paths %s; wrapper guards of Sse2::score_rows_into and "
+                 "Neon::score_f32_rows_into present%s" % (
         sse2["paths"], sse2["stores"], neon["paths"], " (regenerated)" if changed else ""))
     return dict(ok=True, notes=notes, errors=errors)
 
